@@ -430,16 +430,30 @@ func (m *monitor) onRestart(n int) {
 	c.mu.Lock()
 	lg := append([]entry(nil), nd.log...)
 	first := nd.walFirst
+	pend := append([]entry(nil), nd.pendAtCrash...)
+	nd.pendAtCrash = nil
+	nd.invalidateImageLocked()
 	c.mu.Unlock()
 	want := lg
 	if int(first) <= len(lg) {
 		want = lg[first:]
 	}
-	bad := len(rec) != len(want)
+	// the recovered WAL is the synced log, possibly followed by entries that had been appended and not synced when the
+	// node went down (process death: all of them; power loss: whatever part of them had reached the disk)
+	same := func(a, b entry) bool { return a.term == b.term && a.off == b.off && a.sum == b.sum }
+	bad := len(rec) < len(want) || len(rec) > len(want)+len(pend)
 	for i := 0; !bad && i < len(rec); i++ {
-		if rec[i].term != want[i].term || rec[i].off != want[i].off || rec[i].sum != want[i].sum {
-			bad = true
+		if i < len(want) {
+			bad = !same(rec[i], want[i])
+		} else {
+			bad = !same(rec[i], pend[i-len(want)])
 		}
+	}
+	if !bad && len(rec) > len(want) {
+		c.stats["restart:unsynced-entries-recovered"]++
+		c.mu.Lock()
+		nd.log = append(nd.log, pend[:len(rec)-len(want)]...)
+		c.mu.Unlock()
 	}
 	if !bad {
 		return
